@@ -112,6 +112,8 @@ def check_tree(ctx, case):
         labels += sorted({f"rule:{w}" for (_v, w) in verdicts.values()})
         if spec["git"] and spec["git"]["submodules"]:
             labels.append("has-submodule")
+            if any(sm.startswith("subprojects/") for sm in spec["git"]["submodules"]):
+                labels.append("submodule-under-subprojects")
         ctx.count(cdict, nontrivial=bool(cov and exc), labels=labels,
                   sample={"paths": {p: v for p, (v, _w) in sorted(verdicts.items())}, "git": spec["git"], "flags": list(flags)})
         ctx.extra["paths_unspecified"] = ctx.extra.get("paths_unspecified", 0) + len(unspec)
